@@ -421,6 +421,11 @@ impl Buffer {
             let new_layout = Layout::array::<Word>(me.len).unwrap();
             let new_ptr =
                 alloc::alloc::realloc(me.ptr.as_ptr() as _, old_layout, new_layout.size());
+            if new_ptr.is_null() {
+                // a failed realloc leaves the original block untouched: release it, then report
+                drop(mem::ManuallyDrop::into_inner(me));
+                panic_out_of_memory();
+            }
 
             // then convert the ptr to boxed slice
             let slice = slice::from_raw_parts_mut(new_ptr as *mut Word, me.len);
